@@ -53,8 +53,11 @@ func New(session *packet.Session) (h *DNSHandler, err error) {
 }
 
 func (h *DNSHandler) Close() error {
-	h.DNSTable = nil
-	h.mdnsCache = nil
+	// the packet loop may still be processing: drop the tables under the handler lock and leave empty (not nil) maps
+	h.mutex.Lock()
+	h.DNSTable = make(map[string]packet.DNSEntry)
+	h.mdnsCache = make(map[string]cache)
+	h.mutex.Unlock()
 	return nil
 }
 
